@@ -99,3 +99,36 @@ Theorem C02_pipeline_isolation_events : forall ops o x i f p,
   else spec_lookup (evs_of (world_updates ops)) (f, p, i).
 Proof. exact pipe_session_end_isolated. Qed.
 Print Assumptions C02_pipeline_isolation_events.
+
+(* ------------------------------------------------------------------ *)
+(* The end of a BGP session on the code's own loop (Bgp/BgpSessionModel.v: the select! loop
+   of bgp_tcp_in Processor::process and the block after it; see Props_C07.v). The updates a
+   session's processor sent, applied to ANY RIB: *)
+From RV Require Import Bgp.BgpSessionModel Bgp.BgpSessionProofs.
+
+(* nothing else - for every script and however the session ends, every entry of every
+   OTHER ingress id reads afterwards as it read before *)
+Theorem C02_bgp_session_touches_only_own : forall id key live0 evs r0 k,
+  k_mui k <> id ->
+  rib_lookup (bs_rib_after r0 (bs_out (bs_process id key live0 evs).1)) k = rib_lookup r0 k.
+Proof. exact session_touches_only_own. Qed.
+Print Assumptions C02_bgp_session_touches_only_own.
+
+(* exactly that session's routes - a registered session, whatever ended it (ConnectionLost,
+   tick error, reconfiguration, de-configuration, closed channel): every entry under its
+   ingress id is what its updates made of it, turned to withdrawn *)
+Theorem C02_bgp_session_end_withdraws_own : forall id key live0 evs r0 k,
+  bs_wf evs = true -> bs_reg (bs_loop id key (bs_init live0) evs).1 = true ->
+  k_mui k = id -> (k_fam k < 4)%N ->
+  rib_lookup (bs_rib_after r0 (bs_out (bs_process id key live0 evs).1)) k =
+  match rib_lookup (bs_rib_after r0 (bs_out (bs_loop id key (bs_init live0) evs).1)) k with
+  | Some (_, a) => Some (false, a) | None => None end.
+Proof. exact session_end_withdraws_own. Qed.
+Print Assumptions C02_bgp_session_end_withdraws_own.
+
+Theorem C02_bgp_session_end_none_active : forall id key live0 evs r0 k a,
+  bs_wf evs = true -> bs_reg (bs_loop id key (bs_init live0) evs).1 = true ->
+  k_mui k = id -> (k_fam k < 4)%N ->
+  rib_lookup (bs_rib_after r0 (bs_out (bs_process id key live0 evs).1)) k <> Some (true, a).
+Proof. exact session_end_none_active. Qed.
+Print Assumptions C02_bgp_session_end_none_active.
